@@ -729,16 +729,158 @@ pub proof fn lemma_kara_minus_room(acc4: Seq<u64>, av: nat, xyv: nat, j0: nat, j
     lemma_hi_fit(acc4, b, e);
 }
 
-//@ extract src/biguint/multiplication.rs :: fn mac3 rules=R0,R36b,R36d,R36e,R37,R38 props=C02,C14
-/*+*/#[verifier::rlimit(2000)] /*-*/fn mac3(mut acc: &mut [BigDigit], mut b: &[BigDigit], mut c: &[BigDigit])
+
+// ---------------------------------------------------------------- Toom-3
+pub open spec fn tc0(x0: int, x1: int, x2: int, y0: int, y1: int, y2: int) -> int { x0 * y0 }
+pub open spec fn tc1(x0: int, x1: int, x2: int, y0: int, y1: int, y2: int) -> int { x0 * y1 + x1 * y0 }
+pub open spec fn tc2(x0: int, x1: int, x2: int, y0: int, y1: int, y2: int) -> int { x0 * y2 + x1 * y1 + x2 * y0 }
+pub open spec fn tc3(x0: int, x1: int, x2: int, y0: int, y1: int, y2: int) -> int { x1 * y2 + x2 * y1 }
+pub open spec fn tc4(x0: int, x1: int, x2: int, y0: int, y1: int, y2: int) -> int { x2 * y2 }
+
+/// a digit string cut in three: s[..i], s[i..i+k], s[i+k..]
+pub proof fn lemma_split3(s: Seq<u64>, i: nat, k: nat)
+    requires i + k <= s.len()
+    ensures val(s) == val(s.subrange(0, i as int)) + pw(i) * val(s.subrange(i as int, (i + k) as int)) + pw(i + k) * val(s.subrange((i + k) as int, s.len() as int)),
+        val(s.subrange(0, i as int)) < pw(i), val(s.subrange(i as int, (i + k) as int)) < pw(k)
+{
+    lemma_split(s, i);
+    let t = s.subrange(i as int, s.len() as int);
+    lemma_split(t, k);
+    assert(t.subrange(0, k as int) =~= s.subrange(i as int, (i + k) as int));
+    assert(t.subrange(k as int, t.len() as int) =~= s.subrange((i + k) as int, s.len() as int));
+    lemma_pw_add(i, k);
+    let m = val(s.subrange(i as int, (i + k) as int));
+    let h = val(s.subrange((i + k) as int, s.len() as int));
+    assert(pw(i) * (m + pw(k) * h) == pw(i) * m + (pw(i) * pw(k)) * h) by (nonlinear_arith);
+}
+
+pub proof fn lemma_nonneg_mul(a: int, b: int)
+    requires a >= 0, b >= 0
+    ensures a * b >= 0
+{
+    assert(a * b >= 0) by (nonlinear_arith) requires a >= 0, b >= 0;
+}
+
+/// everything the Toom-3 branch needs about the five coefficients
+pub proof fn lemma_toom_all(x0: nat, x1: nat, x2: nat, y0: nat, y1: nat, y2: nat, i: nat)
+    ensures ({
+        let (a0, a1, a2, b0, b1, b2) = (x0 as int, x1 as int, x2 as int, y0 as int, y1 as int, y2 as int);
+        let c0 = tc0(a0, a1, a2, b0, b1, b2); let c1 = tc1(a0, a1, a2, b0, b1, b2); let c2 = tc2(a0, a1, a2, b0, b1, b2);
+        let c3 = tc3(a0, a1, a2, b0, b1, b2); let c4 = tc4(a0, a1, a2, b0, b1, b2);
+        &&& c0 >= 0 && c1 >= 0 && c2 >= 0 && c3 >= 0 && c4 >= 0
+        &&& ((x0 + pw(i) * x1 + pw(2 * i) * x2) * (y0 + pw(i) * y1 + pw(2 * i) * y2)) as int
+            == c0 + pw(i) * c1 + pw(2 * i) * c2 + pw(3 * i) * c3 + pw(4 * i) * c4
+        &&& (a0 + a2 + a1) * (b0 + b2 + b1) == c0 + c1 + c2 + c3 + c4
+        &&& (a0 + a2 - a1) * (b0 + b2 - b1) == c0 - c1 + c2 - c3 + c4
+        &&& ((a0 + a2 - a1 + a2) * 2 - a0) * ((b0 + b2 - b1 + b2) * 2 - b0) == c0 - 2 * c1 + 4 * c2 - 8 * c3 + 16 * c4
+    })
+{
+    let (a0, a1, a2, b0, b1, b2) = (x0 as int, x1 as int, x2 as int, y0 as int, y1 as int, y2 as int);
+    lemma_nonneg_mul(a0, b0); lemma_nonneg_mul(a0, b1); lemma_nonneg_mul(a1, b0); lemma_nonneg_mul(a0, b2); lemma_nonneg_mul(a1, b1);
+    lemma_nonneg_mul(a2, b0); lemma_nonneg_mul(a1, b2); lemma_nonneg_mul(a2, b1); lemma_nonneg_mul(a2, b2);
+    let q = pw(i) as int;
+    lemma_toom_poly(a0, a1, a2, b0, b1, b2, q);
+    lemma_toom_evals(a0, a1, a2, b0, b1, b2);
+    lemma_pw_add(i, i); lemma_pw_add(2 * i, i); lemma_pw_add(3 * i, i);
+    assert(pw(2 * i) as int == q * q);
+    assert(pw(3 * i) as int == q * q * q);
+    assert(pw(4 * i) as int == q * q * q * q);
+}
+
+/// the interpolation sequence of mac3's Toom-3 branch recovers the coefficients (pure linear arithmetic)
+pub proof fn lemma_toom_interp(c0: int, c1: int, c2: int, c3: int, c4: int, r1: int, r2: int, r3: int)
+    requires r1 == c0 + c1 + c2 + c3 + c4, r2 == c0 - c1 + c2 - c3 + c4, r3 == c0 - 2 * c1 + 4 * c2 - 8 * c3 + 16 * c4
+    ensures ({
+        let k3 = tdiv(r3 - r1, 3);
+        let h1 = (r1 - r2) / 2;
+        let m2 = r2 - c0;
+        let n3 = (m2 - k3) / 2 + c4 * 2;
+        &&& k3 == -c1 + c2 - 3 * c3 + 5 * c4
+        &&& h1 == c1 + c3
+        &&& n3 == c3
+        &&& m2 + (h1 - c4) == c2
+        &&& h1 - n3 == c1
+    })
+{
+    let k = -c1 + c2 - 3 * c3 + 5 * c4;
+    assert(r3 - r1 == 3 * k);
+    lemma_tdiv_exact3(k);
+}
+
+pub proof fn lemma_tdiv_exact3(k: int)
+    ensures tdiv(3 * k, 3) == k
+{
+    if k >= 0 {
+        assert(iabs(3 * k) == 3 * k);
+        vstd::arithmetic::div_mod::lemma_fundamental_div_mod_converse(3 * k, 3, k, 0);
+    } else {
+        assert(iabs(3 * k) == 3 * (-k));
+        vstd::arithmetic::div_mod::lemma_fundamental_div_mod_converse(3 * (-k), 3, -k, 0);
+    }
+}
+
+
+/// the part of the Toom-3 recombination already added: terms j, j+1, .., 4
+pub open spec fn tsum(cs: Seq<int>, i: nat, j: nat) -> int
+    decreases 5 - j
+{
+    if j >= 5 { 0 } else { pw(i * j) * cs[j as int] + tsum(cs, i, j + 1) }
+}
+
+pub proof fn lemma_tsum5(cs: Seq<int>, i: nat)
+    requires cs.len() == 5
+    ensures tsum(cs, i, 0) == pw(i * 0) * cs[0] + pw(i * 1) * cs[1] + pw(i * 2) * cs[2] + pw(i * 3) * cs[3] + pw(i * 4) * cs[4], tsum(cs, i, 5) == 0
+{
+    assert(tsum(cs, i, 5) == 0);
+    assert(tsum(cs, i, 4) == pw(i * 4) * cs[4] + tsum(cs, i, 5));
+    assert(tsum(cs, i, 3) == pw(i * 3) * cs[3] + tsum(cs, i, 4));
+    assert(tsum(cs, i, 2) == pw(i * 2) * cs[2] + tsum(cs, i, 3));
+    assert(tsum(cs, i, 1) == pw(i * 1) * cs[1] + tsum(cs, i, 2));
+    assert(tsum(cs, i, 0) == pw(i * 0) * cs[0] + tsum(cs, i, 1));
+}
+
+pub proof fn lemma_tsum_mono(cs: Seq<int>, i: nat, j: nat)
+    requires cs.len() == 5, forall|t: int| 0 <= t < 5 ==> cs[t] >= 0, j <= 5
+    ensures 0 <= tsum(cs, i, j) <= tsum(cs, i, 0)
+    decreases j
+{
+    lemma_tsum_nonneg(cs, i, j);
+    if j > 0 {
+        lemma_tsum_mono(cs, i, (j - 1) as nat);
+        lemma_nonneg_mul(pw(i * ((j - 1) as nat)) as int, cs[j - 1]);
+    }
+}
+
+pub proof fn lemma_tsum_nonneg(cs: Seq<int>, i: nat, j: nat)
+    requires cs.len() == 5, forall|t: int| 0 <= t < 5 ==> cs[t] >= 0, j <= 5
+    ensures 0 <= tsum(cs, i, j)
+    decreases 5 - j
+{
+    if j < 5 {
+        lemma_tsum_nonneg(cs, i, j + 1);
+        lemma_nonneg_mul(pw(i * j) as int, cs[j as int]);
+    }
+}
+
+/// magnitude digits of a BigInt in terms of its value
+proof fn lemma_iv_mag(x: BigInt)
+    requires x.wfi()
+    ensures x.sg() == Plus ==> x.iv() > 0 && val(x.data.dg()) == x.iv(), x.sg() == NoSign ==> x.iv() == 0, x.sg() == Minus ==> x.iv() < 0,
+        wf(x.data.dg())
+{
+    lemma_sgn_mul(x.sign, x.data.v());
+}
+
+
+//@ extract src/biguint/multiplication.rs :: fn mac3 rules=R0,R36b,R36d,R36e,R37,R38,R39 props=C02,C14
+/*+*/#[verifier::rlimit(150)] #[verifier::exec_allows_no_decreases_clause] /*-*/fn mac3(mut acc: &mut [BigDigit], mut b: &[BigDigit], mut c: &[BigDigit])
 //+{
     requires mac_room(val(old(acc)@), val(b@), val(c@), b@.len(), c@.len(), old(acc)@.len())
     ensures final(acc)@.len() == old(acc)@.len(), val(final(acc)@) == val(old(acc)@) + val(b@) * val(c@)
-    decreases b@.len() + c@.len()
 //+}
 {
 //+{
-    hide(valp); hide(pw);
+    hide(valp); hide(pw); hide(BigInt::iv); hide(BigInt::wfi);
     let ghost fin = final(acc)@;
     let ghost acc_in = acc@;
     let ghost b_in = b@;
@@ -814,8 +956,21 @@ pub proof fn lemma_kara_minus_room(acc4: Seq<u64>, av: nat, xyv: nat, j0: nat, j
     }
 //+}
 
+    loop
+//+{
+        invariant_except_break
+            acc@ == a0, a0.len() == la, x@.len() == lx, y@.len() == ly, xv == val(x@), yv == val(y@), lx <= ly,
+            mac_room(val(a0), xv, yv, lx, ly, la), xv < pw(lx), yv < pw(ly),
+            lx < 0x200_0000_0000_0000, ly < 0x200_0000_0000_0000,
+        ensures acc@.len() == la, val(acc@) == val(a0) + xv * yv
+        decreases 0int
+//+}
+    {
     if x.len() <= 32 {
         // Long multiplication:
+//+{
+        proof { lemma_base_facts(x@); assert(valp(x@, 0) * yv == 0) by (nonlinear_arith) requires valp(x@, 0) == 0; }
+//+}
         { let mut i__ = 0; while i__ < x.len()
 //+{
             invariant
@@ -1000,9 +1155,6 @@ pub proof fn lemma_kara_minus_room(acc4: Seq<u64>, av: nat, xyv: nat, j0: nat, j
             NoSign => /*+*/{ proof { lemma_kara_cross(x0v, x1v, y0v, y1v, j0_sign, j0v, j1_sign, j1v, NoSign, pw(bb)); } /*-*/()/*+*/ }/*-*/,
         }
     } else {
-//+{
-        assume(false);
-//+}
         let i = y.len() / 3 + 1;
 
         let x0_len = Ord::min(x.len(), i);
@@ -1010,6 +1162,37 @@ pub proof fn lemma_kara_minus_room(acc4: Seq<u64>, av: nat, xyv: nat, j0: nat, j
 
         let y0_len = i;
         let y1_len = Ord::min(y.len() - y0_len, i);
+//+{
+        let ghost ii = i as nat;
+        let ghost av = val(a0);
+        let ghost xs0 = x@.subrange(0, i as int);
+        let ghost xs1 = x@.subrange(i as int, (i + x1_len) as int);
+        let ghost xs2 = x@.subrange((i + x1_len) as int, lx as int);
+        let ghost ys0 = y@.subrange(0, i as int);
+        let ghost ys1 = y@.subrange(i as int, 2 * i as int);
+        let ghost ys2 = y@.subrange(2 * i as int, ly as int);
+        let ghost (u0, u1, u2, w0, w1, w2) = (val(xs0), val(xs1), val(xs2), val(ys0), val(ys1), val(ys2));
+        let ghost (a_0, a_1, a_2, b_0, b_1, b_2) = (u0 as int, u1 as int, u2 as int, w0 as int, w1 as int, w2 as int);
+        let ghost c0 = tc0(a_0, a_1, a_2, b_0, b_1, b_2);
+        let ghost c1 = tc1(a_0, a_1, a_2, b_0, b_1, b_2);
+        let ghost c2 = tc2(a_0, a_1, a_2, b_0, b_1, b_2);
+        let ghost c3 = tc3(a_0, a_1, a_2, b_0, b_1, b_2);
+        let ghost c4 = tc4(a_0, a_1, a_2, b_0, b_1, b_2);
+        proof {
+            assert(x0_len == i && y1_len == i);
+            lemma_split3(x@, ii, x1_len as nat);
+            lemma_split3(y@, ii, ii);
+            if x1_len < i {
+                assert(xs2 =~= Seq::<u64>::empty());
+                lemma_valp_zeros(xs2, 0);
+                assert(pw(ii + x1_len as nat) * 0 == 0 && pw(2 * ii) * 0 == 0) by (nonlinear_arith);
+            }
+            assert(xv == u0 + pw(ii) * u1 + pw(2 * ii) * u2);
+            assert(yv == w0 + pw(ii) * w1 + pw(2 * ii) * w2);
+            lemma_toom_all(u0, u1, u2, w0, w1, w2, ii);
+            vstd::arithmetic::power2::lemma2_to64();
+        }
+//+}
 
         let x0 = bigint_from_slice(&x[..x0_len]);
         let x1 = bigint_from_slice(&x[x0_len..x0_len + x1_len]);
@@ -1018,6 +1201,11 @@ pub proof fn lemma_kara_minus_room(acc4: Seq<u64>, av: nat, xyv: nat, j0: nat, j
         let y0 = bigint_from_slice(&y[..y0_len]);
         let y1 = bigint_from_slice(&y[y0_len..y0_len + y1_len]);
         let y2 = bigint_from_slice(&y[y0_len + y1_len..]);
+//+{
+        proof {
+            assert(x0.iv() == a_0 && x1.iv() == a_1 && x2.iv() == a_2 && y0.iv() == b_0 && y1.iv() == b_1 && y2.iv() == b_2);
+        }
+//+}
 
         let p = Add::add(&x0, &x2);
         let q = Add::add(&y0, &y2);
@@ -1028,46 +1216,88 @@ pub proof fn lemma_kara_minus_room(acc4: Seq<u64>, av: nat, xyv: nat, j0: nat, j
         let r1 = Mul::mul(Add::add(p, x1), Add::add(q, y1));
         let r2 = Mul::mul(&p2, &q2);
         let r3 = Mul::mul(Sub::sub(Mul::mul(Add::add(p2, x2), 2), x0), Sub::sub(Mul::mul(Add::add(q2, y2), 2), y0));
+//+{
+        let ghost (r1v, r2v, r3v) = (r1.iv(), r2.iv(), r3.iv());
+        proof {
+            assert(r0.iv() == c0 && r4.iv() == c4);
+            assert(r1v == c0 + c1 + c2 + c3 + c4);
+            assert(r2v == c0 - c1 + c2 - c3 + c4);
+            assert(r3v == c0 - 2 * c1 + 4 * c2 - 8 * c3 + 16 * c4);
+            lemma_toom_interp(c0, c1, c2, c3, c4, r1v, r2v, r3v);
+        }
+//+}
 
         let mut comp3: BigInt = Div::div(Sub::sub(r3, &r1), 3u32);
+//+{
+        assert(comp3.wfi() && comp3.iv() == -c1 + c2 - 3 * c3 + 5 * c4);
+//+}
         let mut comp1: BigInt = Shr::shr(Sub::sub(r1, &r2), 1);
+//+{
+        assert(comp1.wfi() && comp1.iv() == c1 + c3);
+//+}
         let mut comp2: BigInt = Sub::sub(r2, &r0);
+//+{
+        assert(comp2.wfi() && comp2.iv() == -c1 + c2 - c3 + c4);
+//+}
         comp3 = Add::add(Shr::shr(Sub::sub(&comp2, comp3), 1), Shl::shl(&r4, 1));
+//+{
+        assert(comp3.wfi() && comp3.iv() == c3);
+//+}
         AddAssign::add_assign(&mut comp2, Sub::sub(&comp1, &r4));
+//+{
+        assert(comp2.wfi() && comp2.iv() == c2);
+//+}
         SubAssign::sub_assign(&mut comp1, &comp3);
-
-        { let j = 4; let result = &&r4;
-            match result.sign() {
-                Plus => add2(&mut acc[i * j..], result.digits()),
-                Minus => sub2(&mut acc[i * j..], result.digits()),
-                NoSign => {}
-            }
-        } { let j = 3; let result = &&comp3;
-            match result.sign() {
-                Plus => add2(&mut acc[i * j..], result.digits()),
-                Minus => sub2(&mut acc[i * j..], result.digits()),
-                NoSign => {}
-            }
-        } { let j = 2; let result = &&comp2;
-            match result.sign() {
-                Plus => add2(&mut acc[i * j..], result.digits()),
-                Minus => sub2(&mut acc[i * j..], result.digits()),
-                NoSign => {}
-            }
-        } { let j = 1; let result = &&comp1;
-            match result.sign() {
-                Plus => add2(&mut acc[i * j..], result.digits()),
-                Minus => sub2(&mut acc[i * j..], result.digits()),
-                NoSign => {}
-            }
-        } { let j = 0; let result = &&r0;
-            match result.sign() {
-                Plus => add2(&mut acc[i * j..], result.digits()),
-                Minus => sub2(&mut acc[i * j..], result.digits()),
-                NoSign => {}
-            }
+//+{
+        assert(comp1.wfi() && comp1.iv() == c1);
+//+}
+//+{
+        proof {
+            lemma_pw_add(ii, ii); lemma_pw_add(2 * ii, ii); lemma_pw_add(3 * ii, ii);
+            assert((xv * yv) as int == c0 + pw(ii) * c1 + pw(2 * ii) * c2 + pw(3 * ii) * c3 + pw(4 * ii) * c4);
+            lemma_base_facts(x@);
+            assert(pw(0) * c0 == c0) by (nonlinear_arith) requires pw(0) == 1;
+            lemma_tsum5(seq![c0, c1, c2, c3, c4], ii);
         }
+        let ghost cs = seq![c0, c1, c2, c3, c4];
+//+}
+
+        { let arr__ = [&r0, &comp1, &comp2, &comp3, &r4]; let mut j__ = 5; while j__ > 0
+//+{
+            invariant
+                j__ <= 5, acc@.len() == la, i == ii, ii < 0x200_0000_0000_0000, cs.len() == 5,
+                forall|t: int| 0 <= t < 5 ==> (#[trigger] arr__@[t]).wfi() && arr__@[t].iv() == cs[t] && cs[t] >= 0,
+                forall|t: int| 0 <= t < 5 ==> #[trigger] cs[t] >= 0,
+                4 * ii <= la,
+                val(acc@) as int == av + tsum(cs, ii, j__ as nat),
+                av + tsum(cs, ii, 0) < pw(la),
+            decreases j__
+//+}
+        { j__ -= 1; let j = j__; let result = &arr__[j__];
+//+{
+            let ghost cur = acc@;
+            let ghost k = (ii * j as nat) as nat;
+            let ghost cv = cs[j as int] as nat;
+            let ghost rr = **result;
+            proof {
+                assert(ii * (j as nat) <= 4 * ii) by (nonlinear_arith) requires j <= 4;
+                lemma_iv_mag(rr);
+                lemma_tsum_mono(cs, ii, j as nat);
+                assert(tsum(cs, ii, j as nat) == pw(k) * cs[j as int] + tsum(cs, ii, (j + 1) as nat));
+                lemma_hi_fit(cur, k, cv);
+                if cv > 0 { lemma_len_bound(rr.data.dg(), (la - k) as nat); }
+                if cv == 0 { assert(pw(k) * 0 == 0) by (nonlinear_arith); }
+            }
+            assert(rr.sg() != Minus);
+//+}
+            match result.sign() {
+                Plus => /*+*/{ /*-*/add2(&mut acc[i * j..], result.digits())/*+*/; proof { lemma_add_at(cur, acc@, k, cv); } }/*-*/,
+                Minus => sub2(&mut acc[i * j..], result.digits()),
+                NoSign => {}
+            }
+        } }
     }
+    break; }
 //+{
     proof {
         // undo the two strips
